@@ -340,12 +340,15 @@ fn reverse_proxy_part(rep: &Arc<Reporter>, args: &Args) {
         let origin = tokio::net::TcpListener::bind("127.0.0.1:0").await.unwrap();
         let origin_addr = origin.local_addr().unwrap();
         let seen: Arc<std::sync::Mutex<Vec<Vec<u8>>>> = Default::default();
+        let body_first_before: Arc<std::sync::Mutex<Option<usize>>> = Default::default();
         {
             let seen = seen.clone();
+            let body_first_before = body_first_before.clone();
             tokio::spawn(async move {
                 loop {
                     let Ok((mut s, _)) = origin.accept().await else { continue };
                     let seen = seen.clone();
+                    let body_first_before = body_first_before.clone();
                     tokio::spawn(async move {
                         let mut buf = vec![0u8; 65536];
                         let mut got = vec![];
@@ -353,6 +356,26 @@ fn reverse_proxy_part(rep: &Arc<Reporter>, args: &Args) {
                         loop {
                             match s.read(&mut buf).await { Ok(0) | Err(_) => { seen.lock().unwrap().push(got); return; } Ok(n) => got.extend_from_slice(&buf[..n]) }
                             if got.windows(4).any(|w| w == b"\r\n\r\n") { break; }
+                        }
+                        if got.starts_with(b"POST /rp/body-first") {
+                            // like any ordinary HTTP server: the whole request first (up to 3 s of patience), then the response
+                            let head_end = got.windows(4).position(|w| w == b"\r\n\r\n").unwrap() + 4;
+                            let head = String::from_utf8_lossy(&got[..head_end]).to_lowercase();
+                            let want_body: usize = head.lines().find_map(|l| l.strip_prefix("content-length:").and_then(|v| v.trim().parse().ok())).unwrap_or(0);
+                            let deadline = tokio::time::Instant::now() + Duration::from_secs(3);
+                            while got.len() < head_end + want_body {
+                                match tokio::time::timeout_at(deadline, s.read(&mut buf)).await { Ok(Ok(n)) if n > 0 => got.extend_from_slice(&buf[..n]), _ => break }
+                            }
+                            *body_first_before.lock().unwrap() = Some(got.len() - head_end);
+                            let slot = { let mut g = seen.lock().unwrap(); g.push(got.clone()); g.len() - 1 };
+                            let _ = s.write_all(b"HTTP/1.1 200 OK\r\nContent-Length: 2\r\n\r\nOK").await;
+                            loop {
+                                match tokio::time::timeout(Duration::from_secs(5), s.read(&mut buf)).await {
+                                    Ok(Ok(n)) if n > 0 => seen.lock().unwrap()[slot].extend_from_slice(&buf[..n]),
+                                    _ => break,
+                                }
+                            }
+                            return;
                         }
                         if got.starts_with(b"GET /rp/big") {
                             // a large position-coded response body (the relay must deliver it unchanged)
@@ -505,6 +528,45 @@ fn reverse_proxy_part(rep: &Arc<Reporter>, args: &Args) {
                 rep.violation(&format!("origin's response was not relayed unchanged to a client reading more slowly than the session's request timeout ({:?})", via), w);
             } else { rep.tally(&format!("reverse proxy {:?}: 1 MiB response relayed intact to a reader slower than the session timeout", via), 1); }
         }
+        // an origin that, like any ordinary HTTP server, reads the whole request before it answers: the body
+        // must reach it without waiting for its response
+        {
+            id += 1;
+            let ctx = Arc::new(env::make_ctx(&dir, env::CtxOpts {
+                clients: vec![("u".into(), "p".into())],
+                registry_authenticator: true,
+                tweak: Some(Box::new(move |b| b.reverse_proxy(trusttunnel::settings::ReverseProxySettings::builder().server_address(origin_addr).unwrap().path_mask("/rp".into()).build().unwrap()))),
+                ..Default::default()
+            }));
+            seen.lock().unwrap().clear();
+            *body_first_before.lock().unwrap() = None;
+            let (client, server_io) = tokio::io::duplex(256 * 1024);
+            let ctx2 = ctx.clone();
+            tokio::spawn(async move {
+                let peer: SocketAddr = CLIENT_PEER.parse().unwrap();
+                if let Ok(codec) = make_codec(&ctx2, Proto::H1, server_io, peer, id) { run_reverse_proxy(&ctx2, codec, "rp.test", id).await; }
+            });
+            let (mut rd, mut wr) = tokio::io::split(client);
+            let body = common::prng::coded_stream(0xb0d, 1, 0, 5000);
+            let _ = wr.write_all(format!("POST /rp/body-first HTTP/1.1\r\nHost: rp.test\r\nContent-Length: {}\r\n\r\n", body.len()).as_bytes()).await;
+            tokio::time::sleep(Duration::from_millis(100)).await;
+            let _ = wr.write_all(&body).await;
+            let (got, _) = read_until_quiet(&mut rd, Duration::from_millis(4500), 1 << 20).await;
+            tokio::time::sleep(Duration::from_millis(300)).await;
+            drop(wr);
+            rep.evals(1);
+            rep.distinct(common::fnv(b"rp-body-first"));
+            let origin_saw = seen.lock().unwrap().clone();
+            let before = *body_first_before.lock().unwrap();
+            let at_origin = origin_saw.first().and_then(|g| g.windows(4).position(|w| w == b"\r\n\r\n").map(|p| g[p + 4..].to_vec())).unwrap_or_default();
+            let w = json!({"kind":"reverse-proxy","case":"origin answers after the whole request","body_sent_len":body.len(),"body_at_origin_before_it_answered":before,"body_at_origin_in_the_end":at_origin.len(),"origin_patience_secs":3,
+                "client_received":String::from_utf8_lossy(&got).chars().take(120).collect::<String>()});
+            if origin_saw.is_empty() { rep.violation("reverse-proxy request not delivered to the origin: POST to an origin that answers after the whole request", w); }
+            else if at_origin != body { rep.violation("request body did not reach the reverse-proxy origin unchanged", w); }
+            else if before.unwrap_or(0) < body.len() { rep.violation("reverse proxy (HTTP/1.1): request body withheld from the origin until the origin has answered", w); }
+            else if !got.starts_with(b"HTTP/1.1 200") { rep.violation("origin's response and subsequent bytes were not relayed unchanged to the client", w); }
+            else { rep.tally("reverse proxy: request body delivered before the origin answered", 1); }
+        }
         // (a) a request body that arrives in the same write as the head must reach the origin;
         // (b) a path that merely *contains* the mask is not a reverse-proxy request
         for (name, via, raw, must_reach, want_body) in [
@@ -576,9 +638,12 @@ pub fn run(args: &Args) -> i32 {
          {direct, main host + Upgrade}, with the client trying to steer Host. Credentials are configured and never supplied. \
          distinct_nontrivial = distinct request tuples.",
     ));
-    rep.assume("L = 0 and numeric forms like 01/+1 are EITHER; HTTP/3: ping and speedtest over real QUIC on loopback (reverse proxy over HTTP/3 not exercised)");
+    rep.assume("L = 0 and numeric forms like 01/+1 are EITHER; HTTP/3: ping, speedtest and reverse proxy (by SNI and by path mask) over real QUIC on loopback");
     rep.assume("ping/speedtest under the paused clock over in-memory sessions; reverse proxy in real time on loopback");
-    run_all(&rep, args);
-    crate::props::h3_l2::c18_h3(&rep, args);
+    if !args.has_flag("--only-h3rp") {
+        run_all(&rep, args);
+        crate::props::h3_l2::c18_h3(&rep, args);
+    }
+    crate::props::h3_l2::c18_h3_rp(&rep, args);
     rep.finish()
 }
